@@ -676,13 +676,18 @@ Qed.
 
 (* ================================================================== ImmutableSandboxedEnvironment.is_safe_callable
    objects: a stored reference in one of its forms (Model/SbxMutable.stored_ref), the container or type it is bound to,
-   anything else.  Builtin methods carry no markers: super().is_safe_callable answers True.  The recursive call on the
+   anything else.  super().is_safe_callable answers an ARBITRARY boolean [sup] about the object itself (markers on a
+   wrapper object such as a functools.partial are the base class's business and must be consulted first).  The recursive call on the
    callable a partial wraps is answered by the model on that callable (structural recursion over [stored_ref]). *)
 Inductive icobj := ICRef (r : stored_ref) | ICSelf (T : btype) | ICClass (T : btype).
-Definition ic_globals (n : string) : pv icobj :=
-  if String.eqb n "types.BuiltinMethodType" then PTy (fun o => match o with ICRef (RBound _ _) => true | _ => false end)
+(* a bound reference is a builtin method (bk = true: lst.append) or a method-wrapper (bk = false: lst.__setitem__);
+   an unbound one a method descriptor (uk = true: list.append) or a wrapper descriptor (uk = false: list.__setitem__) *)
+Definition ic_globals (bk uk : bool) (n : string) : pv icobj :=
+  if String.eqb n "types.BuiltinMethodType" then PTy (fun o => match o with ICRef (RBound _ _) => bk | _ => false end)
+  else if String.eqb n "types.MethodWrapperType" then PTy (fun o => match o with ICRef (RBound _ _) => negb bk | _ => false end)
   else if String.eqb n "types.MethodType" then PTy (fun _ => false)
-  else if String.eqb n "types.MethodDescriptorType" then PTy (fun o => match o with ICRef (RUnbound _ _) => true | _ => false end)
+  else if String.eqb n "types.MethodDescriptorType" then PTy (fun o => match o with ICRef (RUnbound _ _) => uk | _ => false end)
+  else if String.eqb n "types.WrapperDescriptorType" then PTy (fun o => match o with ICRef (RUnbound _ _) => negb uk | _ => false end)
   else if String.eqb n "partial" then PTy (fun o => match o with ICRef (RPartial _) => true | _ => false end)
   else PNone.
 Definition ic_getattr (o : icobj) (a : string) : outcome (pv icobj) :=
@@ -694,8 +699,8 @@ Definition ic_getattr (o : icobj) (a : string) : outcome (pv icobj) :=
   | ICRef (RPartial r) => if String.eqb a "func" then Norm (PObj (ICRef r)) else Exc "AttributeError"
   | _ => Exc "AttributeError"
   end.
-Definition ic_call (spec : list row) (f : string) (args : list (pv icobj)) : list noev * outcome (pv icobj) :=
-  if String.eqb f "super().is_safe_callable" then ([], Norm (PBool true))
+Definition ic_call (spec : list row) (sup : bool) (f : string) (args : list (pv icobj)) : list noev * outcome (pv icobj) :=
+  if String.eqb f "super().is_safe_callable" then ([], Norm (PBool sup))
   else if String.eqb f (%(ic_self)s ++ ".is_safe_callable") then
     match args with
     | [PObj (ICRef r)] => ([], Norm (PBool (immutable_safe_ref spec r)))
@@ -708,15 +713,16 @@ Definition ic_call (spec : list row) (f : string) (args : list (pv icobj)) : lis
     | _ => ([], Exc "TypeError")
     end
   else ([], Exc "NameError").
-Definition src_immcall (spec : list row) (o : icobj) : list noev * outcome (pv icobj) :=
-  run icobj noev ic_globals yes ic_getattr no_getitem (ic_call spec) exn_isa body_immcall
+Definition src_immcall (spec : list row) (sup bk uk : bool) (o : icobj) : list noev * outcome (pv icobj) :=
+  run icobj noev (ic_globals bk uk) yes ic_getattr no_getitem (ic_call spec sup) exn_isa body_immcall
       [(%(ic_self)s, PNone); (%(ic_obj)s, PObj o)].
 
-Theorem immutable_is_safe_callable_source_eq_model : forall spec r,
-  src_immcall spec (ICRef r) = ([], Norm (PBool (immutable_safe_ref spec r))).
+Theorem immutable_is_safe_callable_source_eq_model : forall spec sup bk uk r,
+  src_immcall spec sup bk uk (ICRef r) = ([], Norm (PBool (sup && immutable_safe_ref spec r))).
 Proof.
-  intros spec r. unfold src_immcall, body_immcall, run.
-  destruct r as [T m|T m|r|]; cbn -[src_mkm]; try reflexivity;
+  intros spec sup bk uk r. unfold src_immcall, body_immcall, run.
+  destruct sup; [|destruct r; reflexivity].
+  destruct r as [T m|T m|r|]; destruct bk, uk; cbn -[src_mkm]; try reflexivity;
     rewrite modifies_known_mutable_source_eq_model; cbn;
     destruct (modifies_known_mutable spec T m); reflexivity.
 Qed.
